@@ -483,6 +483,7 @@ Proof.
                   ip + length (ca ++ cb ++ binop_code op))%nat) by (rewrite !app_length; lia).
   assert (Hext : ext m m2) by (eapply ext_trans; eauto).
   unfold binop_result in He.
+  rewrite (nil_cmp_mapped op _ _ _ c1 a1 (get_cell st2 c2) HMS2 Hm1') in He.
   destruct (get_int st2 c1) as [z1|] eqn:G1.
   - destruct (get_int st2 c2) as [z2|] eqn:G2.
     + pose proof (MS_payload_int _ _ _ _ _ _ HMS2 Hm1' G1) as P1.
